@@ -439,3 +439,59 @@ def playground_programs():
         ("assert", "assert(1 == 2)", None),
         ("overflow-ops", "let b_v = 9223372036854775807\nb_v += 1\n-9223372036854775808 / -1", None),
     ]
+
+
+# ----------------------------------------------------------------------------- indexes around the receiver's length
+
+LEN_RECV = {
+    "String": [('""', 0), ('"a"', 1), ('"abc"', 3), ('"\u00e9"', 1), ('"a\u00e9\U0001F600"', 3), ('"abcdefgh"', 8)],
+    "List": [("[]", 0), ("[1]", 1), ("[1, 2, 3]", 3), ('["a"]', 1), ("[[], [1], [1, 2]]", 3)],
+    "Dict": [("Dict[]", 0), ('Dict["a" => 1]', 1), ('Dict["a" => 1, "b" => 2, "c" => 3]', 3)],
+}
+
+
+def near(n):
+    return sorted(set([-1, 0, 1, n - 1, n, n + 1, n + 2, 2 * n + 3]))
+
+
+def index_cases(vocab, rng, chunk=50):
+    """For every built-in with Int-hinted parameters: all combinations of small ints around the length of
+    the receiver (or of the first String / List argument; lengths 0, 1, 3, 8), incl. from > to.
+    Yields (label, [sources]) in chunks."""
+    import itertools
+    for fn in vocab:
+        hints = [h for _, h in fn["params"]]
+        ipos = [i for i, h in enumerate(hints) if hint_type(h) == "Int"]
+        if not ipos or fn["effect"] == "world":
+            continue
+        if fn["kind"] == "method":
+            recvs = LEN_RECV.get(fn["recv"])
+            if recvs is None:
+                c = [e for e in POOL if e[0] == fn["recv"] and e[2] == ""][:2]
+                recvs = [(e[1], k) for e in c for k in (0, 1, 3)]
+        else:
+            recvs = [(None, 0), (None, 1), (None, 3)]
+        srcs = []
+        for rsrc, n in recvs:
+            base = []
+            length = n
+            for h in hints:
+                t = hint_type(h)
+                if t in LEN_RECV and rsrc is None:
+                    # a function whose first container argument plays the receiver's role
+                    e = LEN_RECV[t][[0, 1, 3].index(n) if n in (0, 1, 3) else 0]
+                    base.append(e[0])
+                    length = e[1]
+                else:
+                    base.append(well_typed(fn, h, rng)[1])
+            vals = near(length)
+            combos = itertools.product(vals, repeat=len(ipos)) if len(ipos) <= 2 else \
+                [tuple(rng.choice(vals) for _ in ipos) for _ in range(80)]
+            for combo in combos:
+                args = list(base)
+                for p, v in zip(ipos, combo):
+                    args[p] = str(v)
+                srcs.append(call_src(fn, rsrc, args))
+        label = fn_label(fn)
+        for i in range(0, len(srcs), chunk):
+            yield label, srcs[i:i + chunk]
